@@ -9,6 +9,7 @@ import Mathlib.Tactic.Linarith
 import Mathlib.Tactic.FieldSimp
 import Mathlib.Data.Complex.Basic
 import Mathlib.LinearAlgebra.Matrix.NonsingularInverse
+import Mathlib.Analysis.Normed.Algebra.MatrixExponential
 /-! helper lemmas for C18 -/
 open Matrix
 namespace QM.C18
@@ -551,6 +552,56 @@ theorem eq_zero_of_toM {m n : Nat} (A : Mat K m n) (h : A.toM = 0) : A = Mat.zer
   apply Mat.toM_injective; rw [h, Mat.toM_zero]
 end matlevel
 
+
+section expo_mathlib
+open NormedSpace
+open scoped Matrix.Norms.Operator
+
+theorem pow_row0 {n : Type} [Fintype n] [DecidableEq n] (L : Matrix n n ℝ) (z : n) (hL : ∀ j, L z j = 0)
+    (k : ℕ) (j : n) : (L ^ (k + 1)) z j = 0 := by
+  rw [pow_succ', Matrix.mul_apply]
+  apply Finset.sum_eq_zero; intro l _
+  rw [hL l, zero_mul]
+
+theorem exp_row0 {n : Type} [Fintype n] [DecidableEq n] (L : Matrix n n ℝ) (z : n) (hL : ∀ j, L z j = 0)
+    (j : n) : (exp L) z j = if z = j then 1 else 0 := by
+  have hs : HasSum (fun k : ℕ => ((k.factorial : ℝ)⁻¹) • L ^ k) (exp L) := exp_series_hasSum_exp' (𝕂 := ℝ) L
+  have hc : Continuous fun A : Matrix n n ℝ => A z j := by fun_prop
+  let φ : Matrix n n ℝ →+ ℝ := { toFun := fun A => A z j, map_zero' := rfl, map_add' := fun _ _ => rfl }
+  have hs2 := hs.map φ hc
+  have h0 : HasSum (fun k : ℕ => φ (((k.factorial : ℝ)⁻¹) • L ^ k)) (if z = j then 1 else 0) := by
+    have : (fun k : ℕ => φ (((k.factorial : ℝ)⁻¹) • L ^ k)) = fun k => if k = 0 then (if z = j then (1:ℝ) else 0) else 0 := by
+      funext k
+      cases k with
+      | zero =>
+        show ((((Nat.factorial 0 : ℕ) : ℝ)⁻¹) • L ^ 0) z j = _
+        simp [Matrix.one_apply]
+      | succ k =>
+        show ((((Nat.factorial (k + 1) : ℕ) : ℝ)⁻¹) • L ^ (k + 1)) z j = _
+        rw [Matrix.smul_apply, pow_row0 L z hL k j, smul_zero]
+        simp
+    rw [this]
+    exact hasSum_ite_eq 0 _
+  exact hs2.unique h0
+
+/-- the executed partial sums are the partial sums of Mathlib's exponential series -/
+theorem expLoop_toM {n : Nat} (L : Mat ℝ n n) (k : Nat) :
+    (expLoop L k).1.toM = ((k.factorial : ℝ)⁻¹) • L.toM ^ k ∧
+    (expLoop L k).2.toM = ∑ i ∈ Finset.range (k + 1), ((i.factorial : ℝ)⁻¹) • L.toM ^ i := by
+  induction k with
+  | zero => simp [expLoop]
+  | succ k ih =>
+    obtain ⟨ih1, ih2⟩ := ih
+    have h1 : (expLoop L (k + 1)).1.toM = (((k + 1).factorial : ℝ)⁻¹) • L.toM ^ (k + 1) := by
+      simp only [expLoop, Mat.toM_smul, Mat.toM_mul, ih1, Matrix.smul_mul, smul_smul, pow_succ]
+      congr 1
+      rw [Nat.factorial_succ]
+      push_cast
+      field_simp
+    refine ⟨h1, ?_⟩
+    rw [Finset.sum_range_succ, ← ih2, ← h1]
+    simp [expLoop]
+end expo_mathlib
 
 section examples
 /-- the basis `{(1)}` of the one-dimensional system -/
